@@ -489,6 +489,9 @@ HEX_N = tuple(range(1, 17))
 BIT_N = (1, 2, 3, 4, 5, 7, 8, 9, 12, 15, 16, 17, 24, 31, 32, 33, 48, 63, 64)
 BIT_N4 = (4, 8, 12, 16, 20, 24, 32, 40, 48, 56, 64)
 BYTE_N = (1, 2, 3, 4, 5, 8)
+# decimal printing sizes its digit buffer from n (about n*log10(2) digits): sizes well beyond a machine word are part of the domain
+BIT_N_DEC = BIT_N + (103, 128, 200)
+HEX_N_DEC = HEX_N + (17, 32, 49)
 
 DIGITS_BIN = {0x30: 0, 0x31: 1}
 DIGITS_DEC = {0x30 + i: i for i in range(10)}
@@ -534,9 +537,9 @@ SPECS: List[IOSpec] = [
            m_out(lambda x: text(render_hex_int(x.v['x'], 4 * x.n, truthy(x.c['x_prefix']), truthy(x.c['use_uppercase'])))),
            'hex/output.fj:194', n_values=HEX_N),
     IOSpec('hex.print_dec_uint', 'hex.output', [O('n', 'n'), O('x', 'hex', 'r', 'n')],
-           m_out(lambda x: text(render_dec(x.v['x']))), 'hex/output.fj:218', n_values=HEX_N),
+           m_out(lambda x: text(render_dec(x.v['x']))), 'hex/output.fj:218', n_values=HEX_N_DEC),
     IOSpec('hex.print_dec_int', 'hex.output', [O('n', 'n'), O('x', 'hex', 'r', 'n')],
-           m_out(lambda x: text(render_dec(signed(x.v['x'], 4 * x.n)))), 'hex/output.fj:229', n_values=HEX_N),
+           m_out(lambda x: text(render_dec(signed(x.v['x'], 4 * x.n)))), 'hex/output.fj:229', n_values=HEX_N_DEC),
     # ------------------------------------------------------------------------------------------ bit/input.fj
     IOSpec('bit.input_bit', 'bit.input', [O('dst', 'bit', 'w', '1')], m_input_bits(lambda x: 1, 'dst'), 'bit/input.fj:7',
            needs='none', inputs=all_bits),
@@ -570,11 +573,11 @@ SPECS: List[IOSpec] = [
            m_out(lambda x: text(render_hex_int(x.v['x'], x.n, truthy(x.c['x_prefix']), True))), 'bit/output.fj:117', n_values=BIT_N4,
            needs='none'),
     IOSpec('bit.print_dec_uint', 'bit.output', [O('n', 'n'), O('x', 'bit', 'r', 'n')], m_out(lambda x: text(render_dec(x.v['x']))),
-           'bit/output.fj:146', n_values=BIT_N, needs='none'),
+           'bit/output.fj:146', n_values=BIT_N_DEC, needs='none'),
     IOSpec('bit.print_dec_uint.print_char', 'bit.output', [O('ascii4', 'bit', 'r', '4'), O('char_flag', 'bit', 'r', '1')],
            m_print_char, 'bit/output.fj:212', needs='none', valid=lambda n, v, c, w: v['ascii4'] <= 9, seq_ok=False),
     IOSpec('bit.print_dec_int', 'bit.output', [O('n', 'n'), O('x', 'bit', 'r', 'n')],
-           m_out(lambda x: text(render_dec(signed(x.v['x'], x.n)))), 'bit/output.fj:225', n_values=BIT_N, needs='none'),
+           m_out(lambda x: text(render_dec(signed(x.v['x'], x.n)))), 'bit/output.fj:225', n_values=BIT_N_DEC, needs='none'),
     # ------------------------------------------------------------------------------------------ bit/casting.fj
     IOSpec('bit.bin2ascii', 'bit.casting', [O('ascii', 'bit', 'w', '8'), O('bin', 'bit', 'r', '1')],
            lambda x: Res(updates={'ascii': 0x30 + x.v['bin']}), 'bit/casting.fj:19', needs='none'),
